@@ -213,6 +213,33 @@ func registerIntrinsics(m *Machine) {
 	}
 	I["(*strings.Builder).copyCheck"] = func(m *Machine, fr *frame, a []Value) Value { return nil }
 
+	// ----- sort.Slice / sort.SliceStable (reflection-based in the library): stable insertion sort
+	// in place through the caller's less closure (forks on symbolic comparisons like any branch)
+	sortSlice := func(m *Machine, fr *frame, a []Value) Value {
+		m.stub("sort.Slice")
+		iv, _ := a[0].(Iface)
+		sl, ok := iv.V.([]Value)
+		if !ok {
+			m.path.abort("unsupported", "sort.Slice on a non-slice")
+		}
+		less := a[1]
+		idx := func(i int) Value { return c.Const(64, uint64(i)) }
+		for i := 1; i < len(sl); i++ {
+			for j := i; j > 0; j-- {
+				r := m.call(fr, less, []Value{idx(j), idx(j - 1)}, 0)
+				if !m.path.Branch(m.term(r)) {
+					break
+				}
+				x, y := copyVal(sl[j]), copyVal(sl[j-1])
+				m.store(&sl[j], y)
+				m.store(&sl[j-1], x)
+			}
+		}
+		return nil
+	}
+	I["sort.Slice"] = sortSlice
+	I["sort.SliceStable"] = sortSlice
+
 	// ----- strconv (concrete arguments only) -----
 	I["strconv.Itoa"] = func(m *Machine, fr *frame, a []Value) Value {
 		t := m.term(a[0])
